@@ -758,7 +758,7 @@ def toy (interm : Bool) : Cfg Nat Nat where
   bounds s := decide (s ≤ 20)
   valid s := decide (s ≠ 5)
   checkMotion _ b := decide (b ≠ 5)
-  segCount a b := (if a < b then b - a else a - b) - 1
+  segCount a b := if a < b then b - a else a - b
   goalDist s := if s < 6 then 6 - s else s - 6
   threshold := 1
   addIntermediate := interm
@@ -792,7 +792,7 @@ def toyC (interm : Bool) (goal fuel : Nat) : RRTConnect.Cfg Nat Nat where
   bounds s := decide (s ≤ 20)
   valid s := decide (s ≠ 5)
   checkMotion _ b := decide (b ≠ 5)
-  segCount a b := (if a < b then b - a else a - b) - 1
+  segCount a b := if a < b then b - a else a - b
   equalStates a b := a == b
   goalDist s := if s < goal then goal - s else s - goal
   goalSample _ := goal
